@@ -64,7 +64,7 @@ def r12_1(ctx):
             ctx.ob("R12.1", "subtendril-counts-the-new-view", ok, "make_buf_shared; incref; then Tendril::shared(..)" if ok else "a shared view is created without make_buf_shared + incref")
     ctx.floor("R12.1", "view-creating-paths", n, 2)
     key, pcs = nfq.cells(ctx, AREA, T + "make_buf_shared")
-    ok = all(("set self.ptr" in nfq.names(pc)) == (pc["guards"].get("((self.ptr.get().get() & 1) == 0)") is True) for pc in nfq.feasible(pcs))
+    ok = all(("set self.ptr" in nfq.names(pc)) == (gval(pc["guards"], "((self.ptr.get().get() & 1) == 0)") is True) for pc in nfq.feasible(pcs))
     ctx.ob("R12.1", "make_buf_shared-writes-header-once", ok, "the header (cap) and the shared bit are written only while the buffer is still uniquely owned")
 
 
@@ -77,7 +77,7 @@ def r12_2(ctx):
         destroys = sum(1 for a in names if a.endswith(".destroy"))
         inline = gval(g, "(self.ptr.get().get() <= %s)" % _tag(ctx))
         shared = [v for k, v in g.items() if k.startswith("self.assume_buf().1")]
-        last = [v for k, v in g.items() if "refcount.decrement() == 1" in k]
+        last = [v for k, v in g.items() if "refcount.decrement() matches 1" in k]
         n += 1
         if inline:
             exp = 0
